@@ -187,6 +187,7 @@ fn n_distinct(xs: &[&A]) -> usize {
     xs.iter().for_each(|a| atoms_a(a, &mut v));
     v.into_iter().collect::<BTreeSet<_>>().len()
 }
+#[allow(dead_code)]
 fn has_unsat_ca(c: &CA) -> bool {
     match c {
         CA::Leaf(A::Unsat) => true,
@@ -285,7 +286,7 @@ impl<'a> Ctx<'a> {
         }
     }
 
-    fn concrete_ops(&mut self, c: &CA, designated: bool) {
+    fn concrete_ops(&mut self, c: &CA, _designated: bool) {
         let p = match ca_build(c) { Some(p) => p, None => { self.out.count("skipped-unconstructible"); return } };
         let w = ca_wire(c);
         if !self.seen.insert(format!("c:{}", w)) { return; }
@@ -296,16 +297,8 @@ impl<'a> Ctx<'a> {
         atoms_ca(c, &mut ats);
         let small = ats.len() <= 10;
         if small {
-            if designated || !has_unsat_ca(c) {
-                // the property as stated: fires iff some SATISFIABLE path mixes height and time
-                self.out.line(&format!("J checktl {} {}", w, tl), "ok");
-            } else {
-                // through UNSATISFIABLE branches the check over-approximates (known finding,
-                // witnesses in the designated list): judged for soundness and against the exact
-                // structural characterisation
-                self.out.line(&format!("J checktl-sound {} {}", w, tl), "ok");
-                self.out.line(&format!("J checktl-struct {} {}", w, tl), "ok");
-            }
+            // the property as stated: refused iff some SATISFIABLE path mixes height and time
+            self.out.line(&format!("J checktl {} {}", w, tl), "ok");
         }
         let lifted = match guard(|| p.lift()) {
             Some(Ok(s)) => sp_wire(&s),
@@ -314,7 +307,10 @@ impl<'a> Ctx<'a> {
             None => "PANIC".into(),
         };
         self.out.line(&format!("C clift {}", w), &lifted);
-        if small { self.out.line(&format!("J clift {} {}", w, lifted), "ok"); }
+        if small {
+            // lifted to an equivalent policy, or refused because a satisfiable path mixes locks
+            self.out.line(&format!("J clift {} {}", w, lifted), "ok");
+        }
         if lifted != "PANIC" { self.out.line(&format!("J nf {} {}", w, lifted), "ok"); }
         let nm = or_panic(guard(|| { let (s, m) = p.is_safe_nonmalleable(); format!("{}{}", s as u8, m as u8) }));
         self.out.line(&format!("C safenm {}", w), &nm);
@@ -478,8 +474,8 @@ pub fn run(out: &mut Out, thorough: bool, seed: u64) {
         A::Triv, A::Unsat,
     ];
     let cl: Vec<CA> = c_leaves.iter().cloned().map(CA::Leaf).collect();
-    // designated: F10 witnesses (mixed path only through UNSATISFIABLE; judged against the
-    // property as stated) and non-binary `And` / `Or` built through the public enum variants
+    // designated regression inputs: the former F10 witnesses (mixed path only through
+    // UNSATISFIABLE), lift-refusal witnesses, non-binary `And` / `Or` built through the enum
     let o1 = CA::Leaf(A::Older(1));
     let ot = CA::Leaf(A::Older(4194305));
     let un_ = CA::Leaf(A::Unsat);
@@ -491,6 +487,12 @@ pub fn run(out: &mut Out, thorough: bool, seed: u64) {
         CA::Thresh(3, vec![o1.clone(), ot.clone(), un_.clone()]),
         CA::And(vec![o1.clone(), CA::Or(vec![(1, k0.clone()), (1, CA::And(vec![ot.clone(), un_.clone()]))])]),
         CA::And(vec![CA::Leaf(A::After(1)), CA::And(vec![CA::Leaf(A::After(500000001)), un_.clone()])]),
+        // regression: mixed locks only in a sub-policy that no satisfaction uses (lift used to refuse)
+        CA::Or(vec![(1, k0.clone()), (1, CA::And(vec![un_.clone(), CA::And(vec![o1.clone(), ot.clone()])]))]),
+        CA::Thresh(2, vec![k0.clone(), k1.clone(), CA::And(vec![un_.clone(),
+            CA::And(vec![CA::Leaf(A::After(1)), CA::Leaf(A::After(500000001))])])]),
+        // still refused, rightly: a satisfiable mixed path next to UNSATISFIABLE
+        CA::Thresh(2, vec![o1.clone(), ot.clone(), un_.clone()]),
         CA::And(vec![k0.clone(), k1.clone(), k2.clone()]),
         CA::And(vec![k0.clone()]),
         CA::And(vec![]),
